@@ -19,6 +19,8 @@ def run(res, work, tier, seed):
         #      nothing, and the pass that sees the root closed unregisters it (TLC shows it in 46 steps); C08's own invariants are checked
         vlib.tallycore(work, res, "C08: gauge + subscope, loop (3 ticks), Close", deadlock=True, drop_invariants=("GaugeFresh",), **dict(BASE, Script="ScriptC08g", MaxTicks=3))
     vlib.run_core_family(res, work, "c08", tier, seed, parts=12, clauses=CLAUSES, timeout=3400)
+    from props import corestep
+    corestep.run(res, work, tier, seed, "C08")   # step-level replay of the st-c08 scenarios through TallyCore.tla (drift, not a verdict)
     res.rule = ("executions of the real root scope under the controlled scheduler with the real report loop goroutine (ticks handed out by the scheduler, so Close can arrive "
                 "before the first tick, between ticks, while the periodic pass is part-way through the registry or held inside a reporter call): DFS over the loop / "
                 "Close / pass points for recorder || loop || one Close caller (plain / cached, reporter with and without io.Closer and a Close error); seeded random "
